@@ -134,6 +134,13 @@ def check(src, rep):
     for k in (FRAME, HEADER):
         rep.require(k in M.classes, f"anchor vanished: {k}")
     F, H = M.classes[FRAME], M.classes[HEADER]
+    # frame worlds through the public API first: what they find is reported whatever the later (role-bound) rules can or cannot decide
+    from sa.hdlcworlds import RULE as _FWRULE, frame_worlds as _fw
+    fw0 = _fw(M, FRAME, HEADER)
+    if fw0[0] == "bad":
+        ck0 = FRAME if (M.find_method(FRAME, fw0[1]) is not None and M.find_method(HEADER, fw0[1]) is None) else HEADER
+        fn0 = M.find_method(ck0, fw0[1])
+        rep.violation(_FWRULE.get(fw0[1], "R4"), f"{ck0[0]}.{ck0[1]}.{fw0[1]}", "layout", fw0[2], file, fn0.node.lineno if fn0 else 1, witness=fw0[3])
     rep.assumptions += ["ISO/IEC 13239 frame layout as stated in the property (format field 2 octets, extended addresses end at the first octet with LSB 1)",
                         "C03 (the FCS register implements RFC 1662) - checked separately",
                         "reference automaton rows in sa/hdlcref.py"]
